@@ -74,7 +74,28 @@ type Case struct {
 	// records its position).  A failed persistence does not keep an event
 	// from any of its handlers.
 	ReplaySub bool `json:"replay_sub,omitempty"`
+	// Obs: an Observability implementation is installed as well (tracing in
+	// production).  Who is told about a persistence failure does not depend on it.
+	Obs bool `json:"obs,omitempty"`
 }
+
+// obsPlain is an Observability that derives a context of its own at every start.
+type obsPlain struct{}
+
+type obsKey struct{}
+
+func (obsPlain) OnPublishStart(ctx context.Context, _ string, _ any) context.Context {
+	return context.WithValue(ctx, obsKey{}, "publish")
+}
+func (obsPlain) OnPublishComplete(context.Context, string) {}
+func (obsPlain) OnHandlerStart(ctx context.Context, _ string, _ bool) context.Context {
+	return context.WithValue(ctx, obsKey{}, "handler")
+}
+func (obsPlain) OnHandlerComplete(context.Context, time.Duration, error) {}
+func (obsPlain) OnPersistStart(ctx context.Context, _ string, _ int64) context.Context {
+	return context.WithValue(ctx, obsKey{}, "persist")
+}
+func (obsPlain) OnPersistComplete(context.Context, time.Duration, error) {}
 
 // Notice is what a notifying error handler publishes.
 type Notice struct {
@@ -233,6 +254,9 @@ func run(c *Case) *vkit.Outcome {
 	opts := []eventbus.Option{eventbus.WithStore(store), eventbus.WithPersistenceTimeout(2 * time.Millisecond)}
 	if c.ErrHandler && !c.SetLater {
 		opts = append(opts, eventbus.WithPersistenceErrorHandler(errHandler))
+	}
+	if c.Obs {
+		opts = append(opts, eventbus.WithObservability(obsPlain{}))
 	}
 	bus = eventbus.New(opts...)
 	eventbus.Subscribe(bus, func(Notice) { noticesDelivered.Add(1) })
